@@ -761,10 +761,26 @@ func recvAdversary(e *Env) {
 			}
 		})
 	}
+	// the first lines may be the server's greeting, sent on accept: nothing the
+	// client receives is exempt from "dispatched or rejected, in order"
+	greeted := 0
+	if g.Pct(30) {
+		greeted = g.Range(1, 3)
+		if greeted > len(probes) {
+			greeted = len(probes)
+		}
+		for i := 0; i < greeted; i++ {
+			s.greet = append(s.greet, probes[i], fmt.Sprintf(":mark!m@h PRIVMSG me :marker %d", i))
+		}
+		e.S.Count("probe.hostile-lines-in-the-server-greeting")
+	}
 	if !s.connect() {
 		return
 	}
 	for i, p := range probes {
+		if i < greeted {
+			continue
+		}
 		s.l.Send(p + "\r\n")
 		s.l.Send(fmt.Sprintf(":mark!m@h PRIVMSG me :marker %d\r\n", i))
 		if e.S.Choose(4) == 0 {
